@@ -6,6 +6,7 @@ import (
 	"fmt"
 	"go/token"
 	"go/types"
+	"sort"
 
 	"golang.org/x/tools/go/ssa"
 )
@@ -184,6 +185,7 @@ func (fr *Frame) exec(in ssa.Instruction, st *State) error {
 		ks, vs := c.sortOf(mt.Key()), c.sortOf(mt.Elem())
 		dk, vk := c.regMap(ks, vs)
 		k, v := fr.term(x.Key, st), fr.term(x.Value, st)
+		fr.pseudoSink("mapupdate", x, []TV{{T: m, Ty: x.Map.Type()}, {T: k, Ty: x.Key.Type()}, {T: v, Ty: x.Value.Type()}}, st)
 		dom := sel(c.get(st, dk), m, arraySort(ks, SBool))
 		vals := sel(c.get(st, vk), m, arraySort(ks, vs))
 		st.set(dk, c.sc.define("mapdom", sto(c.get(st, dk), m, sto(dom, k, tTrue))))
@@ -840,4 +842,59 @@ func (fr *Frame) execNext(x *ssa.Next, st *State) error {
 	r.T = append(r.T, i, c.freshOfType("range_rune", types.Typ[types.Rune]))
 	fr.env[x] = r
 	return nil
+}
+
+// pseudoSink: map updates are addressable as sinks in contracts: `call mapupdate #n requires E`
+// with arg(0) = map, arg(1) = key, arg(2) = value; ordinals count in source order.
+func (fr *Frame) pseudoSink(kind string, in ssa.Instruction, args []TV, st *State) {
+	c := fr.c
+	if fr.con == nil {
+		return
+	}
+	if fr.pseudoOrd == nil {
+		fr.pseudoOrd = map[ssa.Instruction]int{}
+		type rec struct {
+			in  ssa.Instruction
+			pos token.Pos
+			bi  int
+			ii  int
+		}
+		var recs []rec
+		for _, b := range fr.fn.Blocks {
+			for ii, i2 := range b.Instrs {
+				if _, ok := i2.(*ssa.MapUpdate); ok {
+					recs = append(recs, rec{i2, i2.Pos(), b.Index, ii})
+				}
+			}
+		}
+		sort.SliceStable(recs, func(i, j int) bool {
+			if recs[i].pos != recs[j].pos && recs[i].pos.IsValid() && recs[j].pos.IsValid() {
+				return recs[i].pos < recs[j].pos
+			}
+			if recs[i].bi != recs[j].bi {
+				return recs[i].bi < recs[j].bi
+			}
+			return recs[i].ii < recs[j].ii
+		})
+		for i, r := range recs {
+			fr.pseudoOrd[r.in] = i + 1
+		}
+	}
+	ord := fr.pseudoOrd[in]
+	ev := &Event{did: fr.reach, block: fr.curBlock, key: kind, ord: ord, args: args}
+	fr.events[fmt.Sprintf("%s#%d", kind, ord)] = ev
+	for i, cl := range fr.con.Sinks {
+		if normKey(cl.Callee) != kind || (cl.Ord != 0 && cl.Ord != ord) {
+			continue
+		}
+		cl.matched = true
+		ec := fr.evalCtx(st, fr.entry, in.Pos())
+		ec.thisCall = ev
+		t, err := ec.evalClause(cl.Expr)
+		if err != nil {
+			c.stale = append(c.stale, fmt.Sprintf("%s:%d: %v", cl.File, cl.Line, err))
+			continue
+		}
+		fr.oblige("sink", fmt.Sprintf("%s/%s", kind, clauseLabel(cl, i)), implies(fr.reach, t), in.Pos(), "before "+kind+": "+oneLine(cl.Text))
+	}
 }
